@@ -22,6 +22,7 @@ EXTRA = {   # additional checks expected to notice a mutant
     'C18-int-hash-and-mask': ['C13'],
     'C14-retry-removes-staged-file': ['C08'],
     'C15-rlock-pid-frozen': [],
+    'C13-remove-gives-up-after-60s': ['C14'],
     'C15-hash-uses-python-hash': ['C13'],
     'C15-fanout-pickle-drops-shards': ['C18'],
     'C02-delitem-lookup-outside': ['C05'],
